@@ -217,8 +217,11 @@ class Neighbor:
             return f'peer-ip {self.session.peer_address} listen {self.session.listen}'.encode()
         return self.name().encode()
 
-    def make_rib(self, defer: bool = False) -> None:
-        self.rib.enable(self.name(), self.adj_rib_in, self.adj_rib_out, set(self._families), defer)
+    def make_rib(self, defer: bool = False, families: set[FamilyTuple] | None = None) -> None:
+        # families: the RIB only serves these families of the neighbor (one session per family)
+        if families is None:
+            families = set(self._families)
+        self.rib.enable(self.name(), self.adj_rib_in, self.adj_rib_out, families, defer)
 
     # will resend all the routes once we reconnect
     def reset_rib(self) -> None:
